@@ -15,6 +15,8 @@ def config(name):
     if name == "swaps_len3":         # swap . component . swap sandwiches, reversed-order non-adjacent BS, then every rewrite, then an edit
         return cc.consts_of(NUs={3}, NObj=2, Targets={1, 2}, Numeric=True, MaxLen=3, Kinds={"bs", "ps", "swap", "loss"} | RW, Rids={1}, Convs={"Rx", "H"},
                             Lqs={0}, Pids={1}, LossQs={1}, SwapLevel=2)
+    if name == "swap_blockers":      # several swaps with blocking components in between, on 4 modes: every program of <= 4 components + compress
+        return cc.consts_of(NUs={4}, NObj=1, Targets={1}, Numeric=True, MaxLen=5, Kinds={"swap", "ps", "compress"}, Pids={1}, Lqs={0}, SwapLevel=1, ModeCap=99)
     if name == "swaps_len3_4":       # thorough: 4 modes
         return cc.consts_of(NUs={4}, NObj=2, Targets={1, 2}, Numeric=True, MaxLen=3, Kinds={"bs", "ps", "swap", "loss"} | RW, Rids={1}, Convs={"Rx", "H"},
                             Lqs={0}, Pids={1}, LossQs={1}, SwapLevel=2)
@@ -44,6 +46,8 @@ def run(tier):
     th = tier == "thorough"
     cc.dump_phase(chk, PID, "swaps_len3", config("swaps_len3"), ["UnitaryInv", "SemAgrees"], PROPS, MINE, 1.0 if th else 0.25, 1800,
                   {"scenario": "single", "numeric": True}, keep=lambda t: any(('"%s"' % k) in t for k in RW), nontrivial_fn=has_rewrite)
+    cc.dump_phase(chk, PID, "swap_blockers", config("swap_blockers"), ["UnitaryInv"], PROPS, MINE, 1.0 if th else 0.25, 1800,
+                  {"scenario": "single", "numeric": True}, keep=lambda t: '"compress"' in t and t.count('"swap"') >= 3, nontrivial_fn=has_rewrite)
     if th:
         cc.dump_phase(chk, PID, "swaps_len3_4", config("swaps_len3_4"), ["UnitaryInv", "SemAgrees"], PROPS, MINE, 0.2, 3000,
                       {"scenario": "single", "numeric": True}, keep=lambda t: any(('"%s"' % k) in t for k in RW), nontrivial_fn=has_rewrite)
